@@ -42,7 +42,7 @@ func TestC01(t *testing.T) {
 		h.Exec(0, p, nil, after)
 		return
 	}
-	n := run.Scale(3000, 40000)
+	n := run.Scale(3000, 200000)
 	profiles := []prog.Profile{
 		{MinTypes: 2, MaxTypes: 4, MinOps: 15, MaxOps: 50, Async: true, Scripts: true, FewClasses: true},
 		{MinTypes: 3, MaxTypes: 8, MinOps: 20, MaxOps: 60, Async: true, Scripts: true},
